@@ -9,8 +9,11 @@ EXTENDS Integers, Sequences, FiniteSets
 Max(S) == CHOOSE m \in S : \A x \in S : x <= m
 
 \* the largest integer factor that fits (0 if none)
+\* (closed form of  Max({0} \cup {k \in 1..tw : k * ow <= tw /\ (dim = 1 \/ k * oh <= th)});  MC_ScaleAlgo checks the two against each other;
+\*  the closed form is what lets the trace specification judge requests of 10^9 pixels)
+FactorSet(dim, ow, oh, tw, th) == Max({0} \cup {k \in 1..tw : k * ow <= tw /\ (dim = 1 \/ k * oh <= th)})
 Factor(dim, ow, oh, tw, th) ==
-  Max({0} \cup {k \in 1..tw : k * ow <= tw /\ (dim = 1 \/ k * oh <= th)})
+  IF dim = 1 THEN tw \div ow ELSE (IF tw \div ow <= th \div oh THEN tw \div ow ELSE th \div oh)
 
 MustFail(dim, ow, oh, tw, th) == Factor(dim, ow, oh, tw, th) = 0
 
